@@ -260,7 +260,13 @@ def tie_audit(prop_id):
 class Driver:
     """Batch access to the Lean model: send request lines, get one response line per request."""
 
-    def __init__(self):
+    def __init__(self, strict=True):
+        # strict: a rejected request (`bad-op`) is a machinery fault at once.  Ctx.model uses strict=False: a request can
+        # also be rejected because the model's state has diverged from the implementation's earlier in the same batch
+        # (the model answered `err` where the code built an object the harness then refers to) - which is a broken
+        # correspondence, not a protocol fault.  Ctx decides at the end of the run (see Ctx.rejected_requests).
+        self.strict = strict
+        self.rejected = []
         if not os.path.exists(DRIVER_EXE):
             raise MachineryError('driver executable missing: run setup (cd lean && lake build)')
 
@@ -280,9 +286,9 @@ class Driver:
             out.pop()
         if len(out) != len(lines):
             raise MachineryError('driver returned %d lines for %d requests' % (len(out), len(lines)))
-        for req, resp in zip(lines, out):
-            if resp == 'bad-op' and not req.startswith('#'):
-                raise MachineryError('driver rejected request %r' % req)
+        self.rejected = [req for req, resp in zip(lines, out) if resp == 'bad-op' and not req.startswith('#')]
+        if self.rejected and self.strict:
+            raise MachineryError('driver rejected request %r' % self.rejected[0])
         return out
 
 
@@ -322,6 +328,7 @@ class Ctx:
         self.extra = {}
         self.known = [f for f in load_findings() if f.get('property') == prop_id]
         self.driver = None
+        self.rejected_requests = []   # requests the model driver answered `bad-op` (see Driver.__init__)
 
     # -- bookkeeping used by props modules
     def quick(self):
@@ -342,14 +349,17 @@ class Ctx:
 
     def model(self, lines):
         if self.driver is None:
-            self.driver = Driver()
+            self.driver = Driver(strict=False)
         lines = list(lines)
         ops = self.extra.setdefault('driver_ops_sent', {})   # which front-end ops this run really exercised
         for l in lines:
             if l and not l.startswith('#'):
                 k = ' '.join(l.split(' ', 2)[:2])
                 ops[k] = ops.get(k, 0) + 1
-        return self.driver.ask(lines)
+        out = self.driver.ask(lines)
+        if self.driver.rejected:
+            self.rejected_requests += self.driver.rejected[:5]
+        return out
 
     def disagree(self, stream, detail, key=None):
         """The model and the implementation behave differently on `detail`."""
@@ -409,6 +419,14 @@ class Ctx:
 
     def finish(self):
         os.makedirs(REPLAY_DIR, exist_ok=True)
+        if self.rejected_requests:
+            # A request the model refused.  If nothing else is wrong this is a fault of the protocol/harness (exit 2).
+            # If the run also saw disagreements or violations, the refusal is a consequence of model and code having
+            # diverged earlier (e.g. the request names an object the model never created): a broken correspondence.
+            others = [d for d in self.disagreements if d.get('stream') != 'harness-exception']
+            if not others and not self.violations and not self.obligation_failures:
+                raise MachineryError('driver rejected request %r' % self.rejected_requests[0])
+            self.disagree('model-rejected-request', {'requests': self.rejected_requests[:5]})
         lines = []
         bad = 0
         seen_known = set()
